@@ -182,6 +182,10 @@ def run_shard(spec):
                 one(src, default if idx % 3 else dict(default, safe=True), ["zoo", "metamorph" if place != "plain" else "plain", "indented" if place == "fragment" else "top"])
                 if over_budget():
                     break
+        for b in texts.BLANK_RUNS:
+            idx += 1
+            if idx % spec["nshards"] == spec["shard"]:
+                one(b, default, ["blank-run", "metamorph"])
         for e in texts.ADVERSARIAL_CONDITIONS:
             for ti, t in enumerate(texts.ADVERSARIAL_TEMPLATES):
                 idx += 1
